@@ -17,7 +17,7 @@
 (*                          is a faithful encoding of its input            *)
 (*            otherwise  -> nothing is added on top of the chain result    *)
 (*   ModeDef  EffectiveEscape agrees with the documentation table for all  *)
-(*            4 x 4 attribute pairs; a callee's mode depends only on its   *)
+(*            5 x 5 attribute pairs; a callee's mode depends only on its   *)
 (*            own pair                                                     *)
 (*   ClassTotal  every chain of <= 2 directives has a class                *)
 (*                                                                         *)
@@ -69,20 +69,25 @@ SiteVals == <<S("<a>"), S("&'\""), S("a b"), S(""), I(-7), L(<<S("<a>"), I(1), N
 (***************************************************************************)
 Init ==
   \/ /\ Mode = "sites"
-     /\ kase \in [m : {"sites"}, site : Sites, ns : AutoescapeAttrs, t : AutoescapeAttrs]
+     /\ kase \in [m : {"sites"}, site : Sites, ns : {"-"}, t : {"-"}]
   \/ /\ Mode = "chains"
      /\ kase \in [m : {"chains"}, chain : Chains, on : BOOLEAN, ix : {<<>>}, nsi : 0..Len(NonStrings)]
   \/ /\ Mode = "export"
      /\ kase = [m |-> "export"]
 
+\* sites: Init chooses the site, Next the caller's attribute pair (so that the
+\* cases are spread over the workers); chains: Next appends one character
 Next ==
-  /\ Mode = "chains"
-  /\ kase.nsi = 0
-  /\ Len(kase.ix) < MaxLen
-  /\ \E k \in DOMAIN Alpha : kase' = [kase EXCEPT !.ix = Append(kase.ix, k)]
+  \/ /\ Mode = "sites"
+     /\ kase.ns = "-"
+     /\ \E a \in AutoescapeAttrs, b \in AutoescapeAttrs : kase' = [kase EXCEPT !.ns = a, !.t = b]
+  \/ /\ Mode = "chains"
+     /\ kase.nsi = 0
+     /\ Len(kase.ix) < MaxLen
+     /\ \E k \in DOMAIN Alpha : kase' = [kase EXCEPT !.ix = Append(kase.ix, k)]
 
 Safe ==
-  CASE kase.m = "sites" ->
+  CASE kase.m = "sites" /\ kase.ns # "-" ->
          \A cns \in AutoescapeAttrs, ct \in AutoescapeAttrs, chain \in SiteChains, vi \in DOMAIN SiteVals :
            (kase.site \in CalleeSites \/ (cns = "unspecified" /\ ct = "unspecified")) =>
              SafeCase(kase.site, [ns |-> kase.ns, t |-> kase.t, cns |-> cns, ct |-> ct], chain, SiteVals[vi])
@@ -92,7 +97,7 @@ Safe ==
     [] OTHER -> TRUE
 
 ModeDef ==
-  kase.m = "sites" =>
+  (kase.m = "sites" /\ kase.ns = "-") =>
     /\ \A p \in AutoescapeAttrs \X AutoescapeAttrs : EffectiveEscape(p[1], p[2]) = EffectiveEscapeTable[p]
     /\ \A a \in Attr4 : CalleeEscape(a.ns, a.t, a.cns, a.ct) = EffectiveEscapeTable[<<a.cns, a.ct>>]
 
